@@ -1838,4 +1838,69 @@ class HddSuite(Suite):
                 "noise": case["noise"], "malformed": case.get("malformed") or "no"}
 
 
-SUITES = {"qcow2": Qcow2Suite(), "vhdx": VhdxSuite(), "vmdk": VmdkSuite(), "hdrs": HdrsSuite(), "hdd": HddSuite()}
+
+class VmdkFileSuite(Suite):
+    """Text descriptors reached through VMDK(<file object>) rather than DiskDescriptor.parse(<str>): what the object exposes
+    is the whole stored descriptor, however long the file is (thousands of extent lines, the ddb section behind them).
+    Extents of kinds that have no backing file to open (ZERO, VMFSRDM, VMFSRAW) keep the case self-contained."""
+    name = "vmdk_file"
+    per_case_timeout = 120.0
+
+    def generate(self, rng, tier):
+        out = []
+        for n in ((3, 400, 2600, 6001) if tier != "thorough" else (1, 3, 400, 1500, 2600, 4100, 6001, 9000)):
+            exts = []
+            for i in range(n):
+                typ = rng.pick(["ZERO", "ZERO", "VMFSRDM", "VMFSRAW"])
+                sec = rng.randint(1, 4192256)
+                if typ == "ZERO":
+                    exts.append(f'RW {sec} ZERO')
+                else:
+                    exts.append(f'RW {sec} {typ} "disk-{i:05d}.vmdk"')
+            ddb = [("ddb.virtualHWVersion", "13"), ("ddb.geometry.cylinders", str(rng.randint(1, 65535))),
+                   ("ddb.uuid", "60 00 C2 9b 2f 6a 6f 6e-%02x %02x" % (rng.randrange(256), rng.randrange(256))),
+                   ("ddb.adapterType", rng.pick(["ide", "lsilogic", "buslogic"]))]
+            text = ('# Disk DescriptorFile\nversion=1\nCID=fffffffe\nparentCID=ffffffff\ncreateType="custom"\n\n'
+                    "# Extent description\n" + "\n".join(exts) + "\n\n# The Disk Data Base\n#DDB\n\n" +
+                    "\n".join(f'{k} = "{v}"' for k, v in ddb) + "\n")
+            out.append({"text": text, "n": n, "ddb": ddb})
+        return out
+
+    def impl(self, case):
+        import io
+        from dissect.hypervisor.disk import vmdk
+
+        def view(d):
+            return {"n": len(d.extents), "sectors": int(d.sectors), "ddb": dict(d.ddb), "attr": dict(d.attr),
+                    "last": d.extents[-1].raw if d.extents else None}
+        return {"file": guard(lambda: view(vmdk.VMDK(io.BytesIO(case["text"].encode())).descriptor)),
+                "parse": guard(lambda: view(vmdk.DiskDescriptor.parse(case["text"])))}
+
+    def judge(self, case, impl_res, coq_val):
+        f = fault("vmdk", impl_res)
+        if f:
+            return f
+        fs = []
+        lines = [l for l in case["text"].split("\n") if l.startswith("RW ")]
+        want = {"n": case["n"], "sectors": sum(int(l.split()[1]) for l in lines), "ddb": dict(case["ddb"]),
+                "attr": {"version": "1", "CID": "fffffffe", "parentCID": "ffffffff", "createType": "custom"}, "last": lines[-1]}
+        for how in ("file", "parse"):
+            r = impl_res[how]
+            if r[0] != "ok":
+                fs.append(Finding("impl_vs_spec", f"vmdk descriptor of {case['n']} extents ({len(case['text'])} bytes) via {how}: "
+                                  f"raised {r[1:3]}", f"vmdk:file:{how}:exc"))
+            elif r[1] != want:
+                bad = [k for k in want if r[1].get(k) != want[k]]
+                fs.append(Finding("impl_vs_spec", f"vmdk descriptor of {case['n']} extents ({len(case['text'])} bytes) via {how}: "
+                                  f"exposed {bad} differ from the stored text (extents {r[1].get('n')}, ddb keys "
+                                  f"{len(r[1].get('ddb', {}))})", f"vmdk:file:{how}:value"))
+        return fs
+
+    def nontrivial(self, case, impl_res, coq_val):
+        return case["n"]
+
+    def dist(self, case):
+        return {"extents": case["n"], "bytes_over_64k": len(case["text"]) > 65536}
+
+
+SUITES = {"vmdk_file": VmdkFileSuite(), "qcow2": Qcow2Suite(), "vhdx": VhdxSuite(), "vmdk": VmdkSuite(), "hdrs": HdrsSuite(), "hdd": HddSuite()}
